@@ -110,24 +110,7 @@ Section WithRecX.
       end
     else ([], Fail (FErr ENoDef) st).
 
-  Definition body_xt (st : fstate) (n : name) : tres (fstate * ver) :=
-    let (o0, r0) := get_singleton_t s st n true in
-    match r0 with
-    | Ok (st1, Some v) => (o0, Ok (st1, v))
-    | Ok (st1, None) =>
-      match begin_create (reg st1) n with
-      | (_, Some v) => (o0 ++ [OBegin n], Ok (st1, v))
-      | (r1, None) =>
-        match create_xt (set_reg st1 r1) n with
-        | (o1, Ok (st2, v)) =>
-          (o0 ++ OBegin n :: o1 ++ [OEndOk n v], Ok (set_reg st2 (end_create_ok (reg st2) n v), v))
-        | (o1, Fail (FErr e) st2) =>
-          (o0 ++ OBegin n :: o1 ++ [OEndErr n], Fail (FErr e) (set_reg st2 (end_create_err vt (reg st2) n)))
-        | (o1, Fail k st2) => (o0 ++ OBegin n :: o1, Fail k st2)
-        end
-      end
-    | Fail k st1 => (o0, Fail k st1)
-    end.
+  Definition body_xt (st : fstate) (n : name) : tres (fstate * ver) := body_with vt s create_xt st n.
 End WithRecX.
 
 Fixpoint do_get_xt (vt : variant) (s : scenario) (x : extras) (fuel : nat) (st : fstate) (n : name)
